@@ -268,7 +268,29 @@ func (w *Worker) RunTypeCase(tcase TypeCase, enc bool, property string, thorough
 			} else if enc {
 				// is the document really the encoding of the decoded value?
 				if derr != nil {
-					res.EngineErrors = append(res.EngineErrors, fmt.Sprintf("O-enc too weak: %s does not decode into %s: %v", doc, tcase.T, derr))
+					// the type cannot be decoded into (e.g. an embedded pointer to an unexported struct):
+					// confirm with real values instead - the encodings of probe values of the type
+					confirmed := false
+					for _, pv := range refsem.ProbeValues(tcase.T) {
+						enc, merr := json.Marshal(pv.Interface())
+						if merr != nil {
+							continue
+						}
+						var inst any
+						if json.Unmarshal(enc, &inst) != nil {
+							continue
+						}
+						if pvv, pmsg := nativeVerdict(rs, inst); pvv != VNil {
+							f.Instance, f.GoValue = string(enc), DescribeGo(inst)
+							f.Kind, f.Expected, f.Observed = "encoding-rejected", "the inferred schema accepts the encoding/json encoding of a value of the type", pvv.String()+" "+trunc(pmsg, 200)
+							res.Findings = append(res.Findings, f)
+							confirmed = true
+							break
+						}
+					}
+					if !confirmed {
+						res.EngineErrors = append(res.EngineErrors, fmt.Sprintf("O-enc too weak: %s does not decode into %s: %v", doc, tcase.T, derr))
+					}
 					break
 				}
 				re, _ := json.Marshal(val.Interface())
